@@ -1836,6 +1836,7 @@ def _visited_sets(f):
     return ins & con
 
 
+@rule("C02", "C02.j.every-sweep-evaluates-every-node", floor=2)
 @rule("C12", "C12.g.every-sweep-evaluates-every-node", floor=2)
 def c12g(F, R):
     """inside the `while changed` sweep of each dataflow pass the per-node body always reaches the statements that publish the node's out-facts: no `continue`/`break` skips a node whose ins did not change (a transfer function that also reads the node's own previous outs would stop one evaluation short and a later run would still change facts)"""
@@ -2243,6 +2244,50 @@ def c01n(F, R):
             R.bad(f"publish|{S}", f"`{OUT} = {S}` publishes the caller's guarantees without meeting them with what arrives along the edges into the entry (`{S} &= &prev.reg_values_out()` over node.prevs()): a loop back to the function's label re-claims the original values", loc(assigns[0]))
         else:
             R.bad(f"publish|{S}", f"UNEXTRACTABLE: the seeds collected in `{S}` never reach `{OUT}`", f["sp"])
+
+
+INTERIOR_WRITES = {"set", "replace", "borrow_mut", "take", "swap", "replace_with", "get_or_init", "get_or_insert_with", "update", "replace_if_changed", "get_mut", "try_borrow_mut"}
+
+
+@rule("C12", "C12.i.queries-do-not-remember", floor=30)
+@rule("C05", "C05.h.queries-do-not-remember", floor=30)
+@rule("C03", "C03.f.queries-do-not-remember", floor=30)
+@rule("C01", "C01.o.queries-do-not-remember", floor=30)
+def c01o(F, R):
+    """every answer a CfgNode gives (`known_ecall`, `is_program_exit`, the signature of an ecall, the facts themselves) is computed from the node's current facts: the only methods that write the node's interior state are the setters and edge/annotation mutators whose callers the ownership rules police. A query that stores its answer (a `Cell` filled on first use) keeps it when the facts it came from are withdrawn later in the same fixpoint - an optimistic `a7 = 10` seen before a back edge was evaluated stays an exit for ever"""
+    setters = set(fact_setters(F)) | set(edge_mutators(F))
+    meths = []
+    for i in F.impls:
+        if i["self_ty"] != CFGNODE:
+            continue
+        for it in i["items"]:
+            g = F.fns.get(it["path"])
+            if g and "hir" in g and not (g.get("exp") or "").startswith("Derive"):
+                meths.append((it["name"], it["path"], g))
+    if not meths:
+        raise Anchor("no methods of CfgNode in the fact base")
+    for name, path, g in sorted(meths, key=lambda x: x[1]):
+        writes = []
+        for m in walk(g["hir"]["value"], pats=False):
+            if m.get("k") == "MethodCall" and m["name"] in INTERIOR_WRITES:
+                r = peel(m["recv"])
+                while r.get("k") in ("AddrOf",) or (r.get("k") == "Unary" and r.get("op") == "Deref"):
+                    r = peel(r.get("e") or r.get("a"))
+                if r.get("k") == "Field" and ekey(r["e"]).lstrip("&*") == "self":
+                    writes.append((r["name"], m))
+            if m.get("k") in ("Assign", "AssignOp"):
+                l = peel(m["l"])
+                if l.get("k") == "Field" and ekey(l["e"]).lstrip("&*") == "self":
+                    writes.append((l["name"], m))
+        is_mutator = path in setters or any(name.startswith(p_) for p_ in ("set_", "insert_", "remove_", "clear_")) or name == "new"
+        key = f"{short(root_fn(path))}"
+        if not writes:
+            R.ok(key, detail="reads only", trivial=True)
+        elif is_mutator:
+            R.ok(key, detail=f"mutator of {sorted({w for w, _ in writes})} (its callers are policed by the ownership rules)")
+        else:
+            fld = sorted({w for w, _ in writes})
+            R.bad(f"{key}|writes|{'+'.join(fld)}", f"CfgNode::{name} is a query, yet it writes the node's field(s) {fld}: an answer stored on first use is not withdrawn when the facts it was derived from change (the value analysis evaluates a node optimistically before its back edges; a constant seen then can disappear in the next sweep)", loc(writes[0][1]))
 
 
 @rule("C13", "C13.g.zero-register-operands-fold-as-zero", floor=1)
